@@ -383,6 +383,12 @@ func (f *File) startSegmentIfNeeded(b Box, boxStartPos uint64) {
 		}
 	case (f.fileDecFlags & DecStartOnMoof) != 0:
 		segStart = true
+		if lastSeg := f.LastSegment(); lastSeg != nil {
+			// A segment opened by emsg box(es) is still waiting for its moof
+			if lastFrag := lastSeg.LastFragment(); lastFrag != nil && lastFrag.Moof == nil {
+				segStart = false
+			}
+		}
 	default:
 		segStart = (segIdx == 0)
 	}
